@@ -115,3 +115,28 @@ impl TSI {
         self.endpoints.contains_key(&endpoint_no_src)
     }
 }
+
+#[cfg(feature = "verif")]
+impl TSIFilter {
+    /// Verification hook: canonical (sorted) text of the filter tables
+    pub(crate) fn verif_state(&self) -> String {
+        let mut bypass: Vec<String> = self
+            .endpoint_bypass
+            .iter()
+            .map(|(e, n)| format!("{:?}x{}", e, n))
+            .collect();
+        bypass.sort();
+        let mut tsi: Vec<String> = Vec::new();
+        for (t, v) in &self.tsi {
+            let mut eps: Vec<String> = v
+                .endpoints
+                .iter()
+                .map(|(e, n)| format!("{:?}x{}", e, n))
+                .collect();
+            eps.sort();
+            tsi.push(format!("{}:{:?}", t, eps));
+        }
+        tsi.sort();
+        format!("bypass={:?} tsi={:?}", bypass, tsi)
+    }
+}
